@@ -1,6 +1,8 @@
 package interp
 
 import (
+	"path/filepath"
+	"os"
 	"fmt"
 	"go/token"
 	"go/types"
@@ -159,6 +161,21 @@ func initVerifAPI() {
 		"verifLockCount": func(fr *frame, a []value) value {
 			return fr.in.int64v(int64(fr.in.path.lockEvents))
 		},
+		// verifRepoFile(rel): the bytes of a file of the repository under check
+		// (concrete; used to push the repo's own test inputs through the engine)
+		"verifRepoFile": func(fr *frame, a []value) value {
+			in := fr.in
+			rel := in.concreteStrArg(a[0], "verifRepoFile path")
+			data, err := os.ReadFile(filepath.Join(in.prog.RepoDir, rel))
+			if err != nil {
+				unsupported("verifRepoFile(%q): %v", rel, err)
+			}
+			res := make([]value, len(data))
+			for i, c := range data {
+				res[i] = in.tb.BV(8, uint64(c))
+			}
+			return res
+		},
 		// verifCached(key, build): a concrete fixture built once per worker.  The
 		// heap writes of build() are kept (taken off the undo trail); build must
 		// not branch on symbolic values.  Everything a path later does to the
@@ -212,6 +229,13 @@ func initVerifAPI() {
 		},
 		"verifIsReplay": func(fr *frame, a []value) value {
 			return fr.in.tb.False
+		},
+		// verifReverseMapOrder(on): every range over a map visits the entries
+		// in reverse insertion order (a second fixed order, cheap)
+		"verifReverseMapOrder": func(fr *frame, a []value) value {
+			in := fr.in
+			in.path.reverseMapOrder = in.decideConst(a[0].(T))
+			return nil
 		},
 		"verifNondetMapOrder": func(fr *frame, a []value) value {
 			in := fr.in
@@ -486,9 +510,39 @@ func initFmtExternals() {
 	externals["fmt.Printf"] = pr
 	externals["fmt.Println"] = pr
 	externals["fmt.Print"] = pr
-	externals["fmt.Fprintf"] = pr
-	externals["fmt.Fprintln"] = pr
-	externals["fmt.Fprint"] = pr
+	// Fprint*: text written into a strings.Builder / bytes.Buffer is data and
+	// is written through the real Write method; any other writer (os.Stdout,
+	// the repo's log targets) is logging and is skipped.
+	fpr := func(fr *frame, w value, text value) value {
+		in := fr.in
+		it, ok := w.(iface)
+		if !ok || it.t == nil {
+			return tuple{in.int64v(0), iface{}}
+		}
+		tn := types.TypeString(it.t, nil)
+		if tn != "*strings.Builder" && tn != "*bytes.Buffer" {
+			if in.path != nil {
+				in.path.cuts["fmt.Fprint* to "+tn+" skipped (logging)"]++
+			}
+			return tuple{in.int64v(0), iface{}}
+		}
+		s := text.(str)
+		if s.opaque {
+			unsupported("fmt.Fprint* of a value the engine cannot format, into a %s", tn)
+		}
+		m := in.findMethod(it.t, "WriteString")
+		if m == nil {
+			unsupported("no WriteString method on %s", tn)
+		}
+		return in.call(fr, token.NoPos, m, []value{it.v, s})
+	}
+	externals["fmt.Fprintf"] = func(fr *frame, a []value) value { return fpr(fr, a[0], spf(fr, a[1], a[2])) }
+	externals["fmt.Fprintln"] = func(fr *frame, a []value) value {
+		return fpr(fr, a[0], spf(fr, fr.in.mkStr("\x00sprintln"), a[1]))
+	}
+	externals["fmt.Fprint"] = func(fr *frame, a []value) value {
+		return fpr(fr, a[0], spf(fr, fr.in.mkStr("\x00sprint"), a[1]))
+	}
 	externals["strconv.Itoa$disabled"] = nil
 	delete(externals, "strconv.Itoa$disabled")
 	_ = strconv.Itoa
